@@ -242,6 +242,36 @@ func TestC12L1(t *testing.T) {
 
 // ---- L2 -------------------------------------------------------------------------------------------
 
+// drawExecutors draws a list of 1-3 distinct executors (in drawn order, not sorted).
+func drawExecutors(rt *rapid.T, users []henv.User, label string) []string {
+	n := rapid.IntRange(1, 3).Draw(rt, label+"N")
+	var out []string
+	for len(out) < n {
+		c := users[rapid.IntRange(1, 5).Draw(rt, label)].Str
+		dup := false
+		for _, x := range out {
+			if x == c {
+				dup = true
+			}
+		}
+		if !dup {
+			out = append(out, c)
+		} else if len(out) > 0 {
+			break
+		}
+	}
+	return out
+}
+
+func inList(list []string, s string) bool {
+	for _, x := range list {
+		if x == s {
+			return true
+		}
+	}
+	return false
+}
+
 func TestC12L2(t *testing.T) {
 	rec := evid.For("C12")
 	runRapid(t, 1500, 20000, func(rt *rapid.T) {
@@ -259,6 +289,16 @@ func TestC12L2(t *testing.T) {
 		l2.Fund(users[0].Addr, coinOf("stake", 1000))
 		l2.Fund(users[4].Addr, coinOf("stake", 1000))
 		authority := l2.Authority
+		tightCap := rapid.IntRange(0, 2).Draw(rt, "tightCap") == 0
+		if tightCap {
+			// the validator set is limited to one: an executor-change plan then runs at the cap
+			p, _ := l2.K.GetParams(l2.Ctx)
+			p.MaxValidators = 1
+			if err := l2.K.SetParams(l2.Ctx, p); err != nil {
+				panic(err)
+			}
+			c.Class("L2/max-validators-1")
+		}
 		var formerExec, formerAdmin []string
 		var log []string
 		var info *opchildtypes.BridgeInfo
@@ -307,7 +347,7 @@ func TestC12L2(t *testing.T) {
 			switch kind {
 			case "plan":
 				// role rotation through an executor-change plan executed at the end of this block
-				newExecs := []string{users[rapid.IntRange(1, 5).Draw(rt, "pe")].Str}
+				newExecs := drawExecutors(rt, users, "pe")
 				h := uint64(l2.Ctx.BlockHeight())
 				key := henv.MakeConsKey(fmt.Sprintf("c12-plan-%d", i))
 				bz, _ := l2.Enc.Marshaler.MarshalInterfaceJSON(key.PubKey())
@@ -318,7 +358,7 @@ func TestC12L2(t *testing.T) {
 					fail("EndBlock with plan: %v", err)
 				}
 				for _, e := range executors {
-					if e != newExecs[0] {
+					if !inList(newExecs, e) {
 						formerExec = append(formerExec, e)
 					}
 				}
@@ -415,7 +455,7 @@ func TestC12L2(t *testing.T) {
 				switch kind {
 				case "addValidator":
 					m, _ := opchildtypes.NewMsgAddValidator("m", signer, valOps[vi].String(), henv.MakeConsKey(fmt.Sprintf("c12v%d", vi)).PubKey())
-					msg, valid = m, !valStored[vi]
+					msg, valid = m, !valStored[vi] && !tightCap // at the cap only "a stranger cannot" is asserted
 				case "removeValidator":
 					m, _ := opchildtypes.NewMsgRemoveValidator(signer, valOps[vi].String())
 					msg, valid = m, valStored[vi]
@@ -471,7 +511,7 @@ func TestC12L2(t *testing.T) {
 						desc = append(desc, "params")
 					case "params-rotate":
 						newAdmin = users[rapid.IntRange(0, 5).Draw(rt, "na")].Str
-						newExecs = []string{users[rapid.IntRange(1, 5).Draw(rt, "ne")].Str}
+						newExecs = drawExecutors(rt, users, "ne")
 						inner = append(inner, opchildtypes.NewMsgUpdateParams(authority, mkParams(newAdmin, newExecs)))
 						rotated = true
 						desc = append(desc, "params-rotate")
@@ -543,7 +583,7 @@ func TestC12L2(t *testing.T) {
 						formerAdmin = append(formerAdmin, admin)
 					}
 					for _, e := range executors {
-						if e != newExecs[0] {
+						if !inList(newExecs, e) {
 							formerExec = append(formerExec, e)
 						}
 					}
